@@ -478,7 +478,8 @@ func zz34Parse(mode int) {
 	pool := zz34Pool()
 	pbm := &pb.Message{}
 	var entryBytes, presBytes [][]byte
-	if verifrt.NondetRange("wl", 0, 1) == 1 {
+	// (the nil wantlist is covered by the CID modes; in block mode it is varied only when WLNIL is set)
+	if (mode == 1 && verifrt.Param("WLNIL", 1) == 0) || verifrt.NondetRange("wl", 0, 1) == 1 {
 		wl := &pb.Message_Wantlist{Full: verifrt.NondetBool("full")}
 		ne := verifrt.Param("NE", 1)
 		if mode == 0 {
@@ -507,7 +508,7 @@ func zz34Parse(mode int) {
 		nold = verifrt.NondetRange("nold", 0, verifrt.Param("NOLD", 1))
 	}
 	for i := 0; i < nold; i++ {
-		pbm.Blocks = append(pbm.Blocks, verifrt.NondetBytes("old_data", verifrt.NondetRange("old_len", 0, 1)))
+		pbm.Blocks = append(pbm.Blocks, verifrt.NondetBytes("old_data", verifrt.NondetRange("old_len", 1-verifrt.Param("OLDEMPTY", 1), 1)))
 	}
 	npay := verifrt.NondetRange("npay", 0, verifrt.Param("NB", 1))
 	for i := 0; i < npay; i++ {
